@@ -618,6 +618,12 @@ class CallsMixin:
                 return Builtin('cache_clear', obj)
             raise OutOfSubset('attribute of function')
         if isinstance(obj, ClassVal):
+            # class-level constants of the running library (enum members, ...)
+            rel = self.eng.repo.classes.get(obj.name, (None,))[0]
+            if rel is not None:
+                pycls = getattr(self.eng.repo.import_module(rel), obj.name, None)
+                if pycls is not None and hasattr(pycls, name) and liftable(getattr(pycls, name)):
+                    return lift(getattr(pycls, name))
             raise OutOfSubset('class attribute ' + self.snippet(node))
         if isinstance(obj, MatchVal):
             if name == 'groups':
